@@ -17,7 +17,7 @@ func DecodeIPv4(b []byte) (Type, error) {
 	if len(b) != 4 {
 		return IPv4{0, 0, 0, 0}, nil
 	}
-	return IPv4(b), nil
+	return IPv4(append([]byte(nil), b...)), nil
 }
 
 // Serialize implements the Type interface.
